@@ -80,7 +80,14 @@ def a_arr(x):
     return np.arange(300, dtype=np.int64) + x       # weak-referenceable, larger than the tiny cache
 
 
-FNS = dict(a_arr=a_arr, p_a=p_a, p_b=p_b, f_scalar=f_scalar, g_same=g_same, h_other=h_other, e_exc=e_exc, n_null=n_null, o_over=o_over, p_part=p_part)
+@memento_function(cluster="c8", version="1")
+def w_warm(x):
+    REC.calls.append(("w_warm", x))
+    f_scalar.ignore_result()(x)          # a warm-up call whose value is not wanted
+    return [x, "warm"]
+
+
+FNS = dict(w_warm=w_warm, a_arr=a_arr, p_a=p_a, p_b=p_b, f_scalar=f_scalar, g_same=g_same, h_other=h_other, e_exc=e_exc, n_null=n_null, o_over=o_over, p_part=p_part)
 
 
 def expected(name, x):
@@ -91,6 +98,8 @@ def expected(name, x):
         return ["list", [x, "other"]]
     if name == "a_arr":
         return ["array", [x, x + 1, x + 299], 300]
+    if name == "w_warm":
+        return ["list", [x, "warm"]]
     if name == "e_exc":
         return ["raise", "ValueError", "boom %d" % x]
     if name == "n_null":
